@@ -1,8 +1,90 @@
 import TRV.Oracle.Util
-/-! Oracle operations: Timed (stub, filled in by the module that owns it). -/
-namespace TRV.Oracle.Timed
-open TRV.Oracle
+import TRV.Oracle.Engine
+import TRV.Spec.Timed
+/-! Oracle operations: timed engine models and the C05/C08 reference predicates (ops `timed.*`).
 
-def handlers : List (String × Handler) := []
+* `timed.ser min max timeout delay poll cancel sds failTTL calls…`
+* `timed.par min max timeout delay poll cancel sds failTTL calls…`
+    `cancel` = instant in ns or `-`; `sds` = comma separated `SendProbe` durations in send order
+    (missing = 0) or `-`; `failTTL` = TTL whose `SendProbe` fails or `-`; a call is `<out>@<dur>` with
+    `<out>` as for `eng.par`.  The run starts at 0.
+    Answer: `<result as eng.*> fin <finish> sends <ttl@t,…|-> acc <ttl@t,…|->`
+* `timed.bounds min max timeout delay poll sigma` → `ser <n> par <n> cancel <n>`
+* `timed.first min max probes…` → per TTL `min..max` the RTT of the earliest accepted reply or `_`
+* `timed.e2e hops…` → `e2eSpec`
+-/
+namespace TRV.Oracle.Timed
+open TRV TRV.Oracle TRV.Engine TRV.Timed TRV.Spec.Timed
+
+def parseOptNat (s : String) : Option (Option Nat) :=
+  if s = "-" then some none else s.toNat?.map some
+
+def parseNatList (s : String) : Option (List Nat) :=
+  if s = "-" then some [] else (splitOn s ',').mapM (·.toNat?)
+
+def parseCall (s : String) : Option RCall :=
+  match splitOn s '@' with
+  | [o, d] => do
+    let o ← TRV.Oracle.Engine.parseOut o
+    let d ← d.toNat?
+    pure ⟨o, d⟩
+  | _ => none
+
+def showPairs (l : List (Nat × Nat)) : String :=
+  if l.isEmpty then "-" else ",".intercalate (l.map fun (a, b) => s!"{a}@{b}")
+
+def showT (min : Nat) (r : TRes) : String :=
+  s!"{TRV.Oracle.Engine.showRes min r.result} fin {r.finish} sends {showPairs r.sends} acc {showPairs r.accepts}"
+
+def runOp (par : Bool) : Handler
+  | mn :: mx :: to :: dl :: po :: ca :: sds :: ft :: calls => orBad do
+    let mn ← mn.toNat?
+    let mx ← mx.toNat?
+    let to ← to.toNat?
+    let dl ← dl.toNat?
+    let po ← po.toNat?
+    let ca ← parseOptNat ca
+    let sds ← parseNatList sds
+    let ft ← parseOptNat ft
+    let calls ← calls.mapM parseCall
+    let c : Cfg := { min := mn, max := mx, timeout := to, delay := dl, poll := po }
+    let sd : Nat → Nat := fun i => sds.getD (i - mn) 0
+    let sfail : Nat → Bool := fun i => ft == some i
+    let r := if par then parallelT c ca sd sfail 0 calls else serialT c ca sd sfail 0 calls
+    pure (showT mn r)
+  | _ => badOp
+
+def bounds : Handler
+  | [mn, mx, to, dl, po, sg] => orBad do
+    let mn ← mn.toNat?
+    let mx ← mx.toNat?
+    let to ← to.toNat?
+    let dl ← dl.toNat?
+    let po ← po.toNat?
+    let sg ← sg.toNat?
+    let c : Cfg := { min := mn, max := mx, timeout := to, delay := dl, poll := po }
+    pure s!"ser {serialBound c sg} par {parallelBound c sg} cancel {cancelBound c sg}"
+  | _ => badOp
+
+def first : Handler
+  | mn :: mx :: ps => orBad do
+    let mn ← mn.toNat?
+    let mx ← mx.toNat?
+    let σ ← ps.mapM TRV.Oracle.Engine.parseProbe
+    let cells := (List.range' mn (mx + 1 - mn)).map fun t =>
+      match firstAccepted σ t with
+      | some p => toString p.rtt
+      | none => "_"
+    pure (",".intercalate cells)
+  | _ => badOp
+
+def e2e : Handler
+  | hs => orBad do
+    let hops ← hs.mapM TRV.Oracle.Engine.parseHop
+    pure (toString (e2eSpec hops))
+
+def handlers : List (String × Handler) :=
+  [("timed.ser", runOp false), ("timed.par", runOp true), ("timed.bounds", bounds),
+   ("timed.first", first), ("timed.e2e", e2e)]
 
 end TRV.Oracle.Timed
